@@ -58,7 +58,8 @@ DialOnly == {"dial"}
 NoBugs == {}
 KeepCtx == {"keepctx"}
 NoDrain == {"nodrain"}        \* the connection task exits on idle without draining what substreams have written
-CloseFirst == {"closefirst"}  \* on_connection_closed fails requests whose response has already arrived
+CloseFirst == {"closefirst"}
+InvFilter == {"invfilter"}    \* on_connection_closed filters pending_outbound with the inverted predicate  \* on_connection_closed fails requests whose response has already arrived
 OnePeer == {p2}
 TwoPeers == {p2, p3}
 
@@ -67,7 +68,8 @@ VARIABLES
   inpeers,   \* DOMAIN of `peers`
   active,    \* peer -> set of request ids (peers[p].active)
   pdial,     \* peer -> sequence of request ids (pending_dials; at most one in the pre-e9eba69 variant)
-  pout,      \* set of request ids whose substream is being opened (pending_outbound)
+  pout,      \* substream id -> [rid, p]: substreams being opened (pending_outbound, a map whose contexts name
+             \* their peer; the substream id of a request is its request id)
   fut,       \* request id -> cancel signalled  (pending_inbound: request written, waiting)
   cancels,   \* set of request ids         (pending_outbound_cancels)
   evq,       \* events queued by TransportService for the protocol loop
@@ -103,7 +105,7 @@ Rids == 0..(MaxReq - 1)
 
 Init ==
   /\ inpeers = {} /\ active = [p \in Peers |-> {}] /\ pdial = [p \in Peers |-> <<>>]
-  /\ pout = {} /\ fut = <<>> /\ cancels = {} /\ evq = <<>> /\ cmdq = <<>>
+  /\ pout = <<>> /\ fut = <<>> /\ cancels = {} /\ evq = <<>> /\ cmdq = <<>>
   /\ mgr = [p \in Peers |-> "disc"] /\ mdial = [p \in Peers |-> FALSE] /\ wedged = {}
   /\ svc = [p \in Peers |-> "none"] /\ sids = {} /\ nc = 0
   /\ rq = [r \in Rids |-> "none"] /\ inb = [p \in Peers |-> {}] /\ tgt = [r \in Rids |-> 0]
@@ -182,7 +184,7 @@ OnSendRequest(c) ==
     /\ UNCHANGED <<inpeers, active, pdial, pout, evars, kf>>
   ELSE
     /\ active' = [active EXCEPT ![p] = @ \cup {r}]
-    /\ pout' = pout \cup {r}
+    /\ pout' = (r :> [rid |-> r, p |-> p]) @@ pout
     /\ sids' = sids \cup {r}
     /\ UNCHANGED <<inpeers, pdial, mgr, mdial, wedged, svc, nc, mon, kf>>
 
@@ -217,7 +219,7 @@ OnConnEst(p, alive) ==
        /\ IF alive THEN
             /\ inpeers' = inpeers \cup {p}
             /\ active' = [active EXCEPT ![p] = ToSet(pdial[p])]
-            /\ pout' = pout \cup ToSet(pdial[p])
+            /\ pout' = [x \in ToSet(pdial[p]) |-> [rid |-> x, p |-> p]] @@ pout
             /\ sids' = sids \cup ToSet(pdial[p])
             /\ mon' = mon
           ELSE \* open_substream failed: the request is failed and the peer is not registered
@@ -232,7 +234,10 @@ Arrived(p) == IF "closefirst" \in Bugs THEN {}
 CancelledReady(p) == IF "closefirst" \in Bugs THEN {} ELSE {r \in (active[p] \cap DOMAIN fut) \ Arrived(p) : fut[r]}
 OnConnClosed(p) ==
   /\ svc' = [svc EXCEPT ![p] = "none"]
-  /\ pout' = pout \ Of(pout, p)
+  \* pending_outbound.retain(|_, context| context.peer != peer); "invfilter": the filter inverted - the dead
+  \* contexts of the closed peer are kept and those of every other peer are removed
+  /\ pout' = IF "invfilter" \in Bugs THEN [x \in {y \in DOMAIN pout : pout[y].p = p} |-> pout[x]]
+                                     ELSE [x \in {y \in DOMAIN pout : pout[y].p # p} |-> pout[x]]
   /\ IF p \in inpeers THEN
        LET ar == Arrived(p) cr == CancelledReady(p) IN
        /\ inpeers' = inpeers \ {p}
@@ -263,9 +268,9 @@ Deliver(M, r) ==
 
 \* on_outbound_substream: the request is written, the future waits for response / timeout / cancel
 OnSubOpened(r) ==
-  /\ IF r \in pout THEN
+  /\ IF r \in DOMAIN pout THEN
        LET d == Deliver(mon, r) IN
-       /\ pout' = pout \ {r}
+       /\ pout' = Drop(pout, r)
        /\ cancels' = cancels \cup {r}
        /\ fut' = (r :> FALSE) @@ fut
        /\ rq' = [rq EXCEPT ![r] = d.st]
@@ -277,9 +282,9 @@ OnSubOpened(r) ==
 
 \* on_substream_open_failure
 OnSubOpenFail(r) ==
-  /\ IF r \in pout THEN
-       /\ pout' = pout \ {r}
-       /\ active' = [active EXCEPT ![tgt[r]] = @ \ {r}]
+  /\ IF r \in DOMAIN pout THEN
+       /\ pout' = Drop(pout, r)
+       /\ active' = [active EXCEPT ![pout[r].p] = @ \ {r}]
        /\ mon' = MonFailEv(mon, R, r)
      ELSE /\ mon' = Fail(mon, "panic: pending outbound request does not exist")
           /\ UNCHANGED <<pout, active>>
@@ -478,7 +483,7 @@ QuiesceOK == Quiescent => Unsettled(mon) \subseteq (kf \cup Stuck)
 \* the untagged version: holds for the current code, violated by the one-slot variant (selftest)
 QuiesceStrict == Quiescent => Unsettled(mon) = {}
 \* bookkeeping of the protocol is exact when nothing is in flight
-BooksOK == Quiescent => /\ pout = {} /\ cancels = {}
+BooksOK == Quiescent => /\ pout = <<>> /\ cancels = {}
                         /\ \A p \in Peers : active[p] = {} /\ (kf = {} /\ p \notin wedged => pdial[p] = <<>>)
 \* the responder-side bound on the model state
 BoundOK == MaxConc # NoLimit => \A p \in Peers : Cardinality(inb[p]) <= MaxConc
